@@ -274,9 +274,38 @@ def rule_routing(ctx: Ctx) -> None:
               "next refresh is scheduled one period from now", sk, sched[0] if sched else sk.node, "now() + period",
               "keep-alive not scheduled at now + period", key_text="schedule period")
     sd = _def(sk, ast.Name(id="schedule_dt"))
-    ctx.check(sd is not None and "now()" in ast.unparse(sd) and "period" in ast.unparse(sd) and isinstance(sd, ast.BinOp)
-              and isinstance(sd.op, ast.Add), "C18.4", "refresh time = now + keep_alive_period", sk,
+
+    def _resolves_to_now(e) -> bool:
+        if "self._dispatcher.now()" in ast.unparse(e):
+            return True
+        if isinstance(e, ast.Name):
+            d = _def(sk, e)
+            return d is not None and d is not e and "self._dispatcher.now()" in ast.unparse(d)
+        return False
+    okd = sd is not None and isinstance(sd, ast.BinOp) and isinstance(sd.op, ast.Add) and (
+        (_resolves_to_now(sd.left) and A.dotted(sd.right) == "period") or (_resolves_to_now(sd.right) and A.dotted(sd.left) == "period"))
+    ctx.check(okd, "C18.4", "refresh time = now + keep_alive_period", sk,
               sd if sd is not None else sk.node, "now() + period", "refresh time is not now() + period", key_text="now+period")
+    # pairing: every stored deadline has a job scheduled for it
+    gk = ctx.cfg(sk)
+    dl = [s_ for s_ in A.stores(sk) if isinstance(s_.target, ast.Subscript) and A.dotted(s_.target.value) == "self._next_keep_alive"]
+    ctx.require(dl and sched, "C18.4: _schedule_keep_alive lost its deadline store / schedule call")
+    dn = gk.nodes_for(dl[0].stmt)[0]
+    sn = gk.nodes_for(sched[0])[0]
+    p1 = gk.always_followed_by(dn, lambda n: n is sn, labels=C.NO_EXC) if dn is not sn else None
+    p2 = gk.path_avoiding(gk.entry, lambda n: n is dn, lambda n: n is sn) if False else None
+    same = A.dotted(dl[0].node.value) == A.dotted(sched[0].args[0]) if sched[0].args else False
+    ctx.check(p1 is None and same, "C18.4", "every stored refresh deadline has a job scheduled for that very time", sk, sched[0],
+              "deadline store is post-dominated by schedule(deadline, job)", "a refresh deadline can be stored without scheduling a job for "
+              "it: the pending job of the previous deadline finds the deadline moved and does nothing, so the refresh chain ends and the "
+              "listen key expires", detail={"path": C.fmt_path(p1) if p1 else []})
+    tests = [n for n in gk.nodes if n.kind == "test"]
+    ctx.check(all(ast.unparse(t.ast) == "period" for t in tests), "C18.4", "scheduling depends only on the channel having a keep-alive period", sk,
+              tests[0].ast if tests else sk.node, "if period", f"extra conditions on scheduling: {[ast.unparse(t.ast) for t in tests]}")
+    # the job refreshes iff its deadline is due, and re-arms
+    gj = [n for n in C.walk_shallow(kj.node) if isinstance(n, ast.If)]
+    ctx.check(bool(gj) and ast.unparse(gj[0].test) == "self._next_keep_alive[channel.alias] <= self._dispatcher.now()", "C18.4",
+              "a job refreshes when the current deadline is due", kj, gj[0].test if gj else kj.node, "deadline <= now", "job guard changed")
     # listenKeyExpired -> resubscription
     exp = [c for c in A.func_calls(hm) if (A.call_name(c) or "") == "self.schedule_resubscription"]
     ctx.check(bool(exp) and "listenKeyExpired" in src and "channel.alias" in ast.unparse(exp[0]), "C18.4",
